@@ -85,28 +85,36 @@ let sse_case (toks : string list) (impl_line : string) : string * string =
              let accepted = List.rev acc_rev in
              let (_, _, fin) = o2 in
              let term_ok = (fin = "T") in
-             let lossless = not (List.exists (fun a -> match a with
-                 | ClientGone -> true
-                 | Send (_, e) -> List.length (encode_gen true e) > 65528
-                 | _ -> false) acts) in
+             (* the lossless clauses are on for every history without a client loss *)
+             let lossless = not (List.exists (fun a -> a = ClientGone) acts) in
              let stepflags = List.map (fun (_, f, st) -> (st = "T", String.contains f '1')) all_obs in
+             let same = (String.trim impl_line = model) in
+             let label = function
+               | VOk -> "ok"
+               | VBadChunking -> "bad-chunking"
+               | VBlockMismatch -> "block-does-not-parse-back"
+               | VCount -> "accepted-event-not-delivered"
+               | VTerminator -> "terminator"
+               | VNoDispatch -> "no-dispatch" in
              (match oracle_c11_modulo accepted wire_all term_ok true lossless true stepflags with
               | VOk ->
                 (match oracle_c11_strict accepted wire_all with
                  | VOk -> "oracle=ok"
                  | _ ->
                    if kf_c11_missing_blank_line (pieces_of wire_all) then
-                     (* the orchestrator does not compare observations of a case that carries a known-finding
-                        verdict; keep the correspondence check alive: when implementation and model differ the
-                        known class is not claimed for this case and the difference is what gets reported *)
-                     (if String.trim impl_line = model then "oracle=fail@no-dispatch kf=D9"
+                     (* a known class is claimed only when implementation and model observations agree;
+                        otherwise the difference is what gets reported *)
+                     (if same then "oracle=fail@no-dispatch kf=D9"
                       else "oracle=ok strict=no-dispatch(D9-class,not-claimed:observations-differ)")
                    else "oracle=fail@no-dispatch")
-              | VBadChunking -> "oracle=fail@bad-chunking"
-              | VBlockMismatch -> "oracle=fail@block-does-not-parse-back"
-              | VCount -> "oracle=fail@accepted-event-not-delivered"
-              | VTerminator -> "oracle=fail@terminator"
-              | VNoDispatch -> "oracle=fail@no-dispatch")
+              | v ->
+                (* known finding D17: the history is in the class [kf_c11_oversize_event] and the ONLY
+                   failure is the loss (with the lossless clauses off the oracle accepts the observation) *)
+                if kf_c11_oversize_event cap acts
+                && oracle_c11_modulo accepted wire_all term_ok true false true stepflags = VOk then
+                  (if same then "oracle=fail@oversize-event-lost kf=D17"
+                   else "oracle=ok lossless=oversize-event-lost(D17-class,not-claimed:observations-differ)")
+                else "oracle=fail@" ^ label v)
            | _ -> "oracle=unparsable")
         with _ -> "oracle=unparsable")) in
   (model, verdict)
